@@ -19,6 +19,8 @@ pub mod c08;
 pub mod c09;
 pub mod reply;
 pub mod c10;
+pub mod c11;
+pub mod rt;
 pub mod c16;
 pub mod docs;
 
@@ -297,7 +299,11 @@ pub fn lookup(prop: &str) -> Option<PropFn> {
         "C08" => Some(c08::run),
         "C09" => Some(c09::run),
         "C10" => Some(c10::run),
+        "C11" => Some(c11::run),
         "C16" => Some(c16::run),
+        "C05A" => Some(rt::c05a),
+        "C11A" => Some(rt::c11a),
+        "C20" => Some(rt::c20),
         _ => None,
     }
 }
@@ -346,6 +352,11 @@ pub fn run_main(programs: Vec<fn() -> Prog>) {
         eprintln!("unknown property {}", cfg.prop);
         std::process::exit(2)
     });
+    // runtime-only properties run once
+    let mut programs = programs;
+    if matches!(cfg.prop.as_str(), "C05A" | "C11A" | "C20") {
+        programs.truncate(1);
+    }
     let total = programs.len();
     let queue = std::sync::Mutex::new(programs.into_iter().collect::<Vec<_>>());
     let merged = std::sync::Mutex::new(Report::new(&cfg.prop));
